@@ -174,8 +174,9 @@ def plan(prop, tier, seed, budget):
             assumptions=COMMON_ASSUME,
         )
     elif prop == 'C01':
-        sc = ['%d:8:%d:3' % (k, c) for k in (1, 2) for c in range(4)] if q else \
-             ['%d:8:%d:3' % (k, c) for k in (1, 2) for c in range(4)] + ['1:9:0:4', '2:9:0:4', '1:8:0:6', '2:8:0:6', '1:8:0:3:seq5']
+        sc = ['%d:8:%d:3' % (k, c) for k in (1, 2) for c in range(4)] + ['1:8:0:3:seq4', '2:8:0:3:seq4'] if q else \
+             ['%d:8:%d:3' % (k, c) for k in (1, 2) for c in range(4)] + ['1:9:0:4', '2:9:0:4', '1:8:0:6', '2:8:0:6',
+                                                                          '1:8:0:3:seq5', '2:8:0:3:seq5', '1:8:0:3:seq6', '2:8:0:3:seq6']
         P = dict(
             level='exploration',
             builds=[('tree', 'asan')] + ([] if q else [('tree', 'rel'), ('tree', 'fuzz')]),
